@@ -1354,4 +1354,139 @@ example : NoRaiseTbl demoTbl :=
 example : runStrict [] demoTbl [0, 0, 0] ["--l".toList, "a".toList, "b".toList] = .exit 2 .required := by
   decide
 
+/-! ### 5. the well-formedness hypothesis of "never a traceback" is met by every table
+    simple-parsing builds for a flat dataclass (so the theorem is unconditional there) -/
+
+theorem tupleConv_wf (items : List ITy) (c : Conv) (h : tupleConv items = some c) :
+    ∀ cs, c = .tupleCounter cs → cs ≠ [] := by
+  intro cs hc
+  subst hc
+  unfold tupleConv at h
+  cases items with
+  | nil => simp at h
+  | cons t rest =>
+    simp only at h
+    split at h
+    · cases t <;> simp [convOfItem] at h
+    · split at h
+      · rename_i hlen
+        simp only [Option.some.injEq, Conv.tupleCounter.injEq] at h
+        intro hnil
+        rw [h, hnil] at hlen
+        simp at hlen
+      · cases h
+
+theorem containerConv_wf (item : ITy) (c : Conv) (h : containerConv item = some c) :
+    ∀ cs, c ≠ .tupleCounter cs := by
+  intro cs hc
+  subst hc
+  cases item with
+  | base b => cases b <;> simp [containerConv] at h
+  | union alts => simp [containerConv] at h
+
+theorem convOfItem_wf (t : ITy) : ∀ cs, convOfItem t ≠ .tupleCounter cs := by
+  intro cs; cases t <;> simp [convOfItem]
+
+theorem argOptions_wf (f : FieldSpec) (ao : ArgOpts) (h : argOptions f = some ao) :
+    (∀ cs, ao.conv = .tupleCounter cs → cs ≠ []) ∧
+      (ao.isBool = true → ao.nargs = .opt ∧ ao.conv = .base .bool) := by
+  obtain ⟨name, ⟨inner, opt⟩, d, als⟩ := f
+  unfold argOptions at h
+  simp only at h
+  cases inner with
+  | literal vals =>
+    cases opt
+    · simp only at h
+      cases hm : vals.mapM literalName with
+      | none => simp [hm] at h
+      | some names => simp only [hm, Option.map_some, Option.some.injEq] at h; subst h; simp
+    · simp at h
+  | sc t =>
+    have hw := convOfItem_wf t
+    cases opt <;> simp only [Bool.true_or, Bool.false_or, ↓reduceIte] at h
+    · split at h
+      · simp only [Option.some.injEq] at h; subst h; exact ⟨fun cs hcs => absurd hcs (hw cs), by simp⟩
+      · cases t with
+        | union alts => simp only [Option.some.injEq] at h; subst h; simp
+        | base b =>
+          cases b <;> simp only [Option.some.injEq] at h <;> subst h <;> simp [bconvOf]
+    · simp only [Option.some.injEq] at h; subst h; exact ⟨fun cs hcs => absurd hcs (hw cs), by simp⟩
+  | list item =>
+    cases hc : containerConv item with
+    | none => cases opt <;> simp [hc] at h
+    | some c =>
+      have hw := containerConv_wf item c hc
+      cases opt <;> simp only [hc, Option.map_some, Bool.true_or, Bool.false_or, ↓reduceIte] at h
+      · split at h <;> (simp only [Option.some.injEq] at h; subst h; exact ⟨fun cs hcs => absurd hcs (hw cs), by simp⟩)
+      · simp only [Option.some.injEq] at h; subst h; exact ⟨fun cs hcs => absurd hcs (hw cs), by simp⟩
+  | tuple items =>
+    cases hc : tupleConv items with
+    | none => cases opt <;> simp [hc] at h
+    | some c =>
+      have hw := tupleConv_wf items c hc
+      cases opt <;> simp only [hc, Option.map_some, Bool.true_or, Bool.false_or, ↓reduceIte] at h
+      · split at h <;> (simp only [Option.some.injEq] at h; subst h; exact ⟨hw, by simp⟩)
+      · simp only [Option.some.injEq] at h; subst h; exact ⟨hw, by simp⟩
+  | vtuple item =>
+    have hw := convOfItem_wf item
+    cases opt <;> simp only [Bool.true_or, Bool.false_or, ↓reduceIte] at h
+    · split at h <;> (simp only [Option.some.injEq] at h; subst h; exact ⟨fun cs hcs => absurd hcs (hw cs), by simp⟩)
+    · simp only [Option.some.injEq] at h; subst h; exact ⟨fun cs hcs => absurd hcs (hw cs), by simp⟩
+
+theorem mapM_mem {α β : Type} (g : α → Option β) : ∀ (l : List α) (as : List β), l.mapM g = some as →
+    ∀ a ∈ as, ∃ x ∈ l, g x = some a
+  | [], as, h, a, ha => by simp at h; subst h; simp at ha
+  | x :: xs, as, h, a, ha => by
+    rw [List.mapM_cons] at h
+    cases hx : g x with
+    | none => simp [hx] at h
+    | some b =>
+      cases hr : xs.mapM g with
+      | none => simp [hx, hr] at h
+      | some bs =>
+        simp only [hx, hr, Option.pure_def, Option.bind_eq_bind, Option.bind_some, Option.some.injEq] at h
+        subst h
+        rcases List.mem_cons.mp ha with rfl | hm
+        · exact ⟨x, by simp, hx⟩
+        · obtain ⟨y, hy, hg⟩ := mapM_mem g xs bs hr a hm
+          exact ⟨y, by simp [hy], hg⟩
+
+/-- every table simple-parsing builds for a flat dataclass is well-formed in the sense of
+    `NoRaiseTbl`: tuple closures are over at least one item type, boolean actions are
+    `nargs='?'` with `type=str2bool` -/
+theorem tableOf_noRaiseTbl (cfg : Cfg) (dest : Str) (fs : List FieldSpec) (tbl : List Act)
+    (h : tableOf cfg dest fs = some tbl) : NoRaiseTbl tbl := by
+  unfold tableOf at h
+  cases hm : fs.mapM (fieldAct cfg dest) with
+  | none => simp [hm] at h
+  | some acts =>
+    simp only [hm, Option.map_some, Option.some.injEq] at h
+    subst h
+    have key : ∀ a ∈ helpAct :: acts, (∀ cs, a.conv = .tupleCounter cs → cs ≠ []) ∧
+        (∀ negs, a.kind = .boolOpt negs → a.nargs = .opt ∧ a.conv = .base .bool) := by
+      intro a ha
+      rcases List.mem_cons.mp ha with rfl | hm'
+      · exact ⟨by intro cs hc; simp [helpAct] at hc, by intro negs hk; simp [helpAct] at hk⟩
+      · obtain ⟨f, _, hf⟩ := mapM_mem _ fs acts hm a hm'
+        unfold fieldAct at hf
+        cases hao : argOptions f with
+        | none => simp [hao] at hf
+        | some ao =>
+          obtain ⟨h1, h2⟩ := argOptions_wf f ao hao
+          simp only [hao, Option.map_some, Option.some.injEq] at hf
+          subst hf
+          refine ⟨h1, ?_⟩
+          intro negs hk
+          cases hb : ao.isBool with
+          | false => simp [hb] at hk
+          | true => exact h2 hb
+    exact ⟨fun a ha => (key a ha).1, fun a ha => (key a ha).2⟩
+
+/-- **C04 (never a traceback), for every flat dataclass**: whatever the fields (of the modelled
+    annotation grammar), whatever the argv and the closure state, parsing ends in a result or an
+    argparse exit — no exception escapes the engine. -/
+theorem c04_no_traceback_flat (fenv : FEnv) (cfg : Cfg) (dest : Str) (fs : List FieldSpec)
+    (tbl : List Act) (h : tableOf cfg dest fs = some tbl) (cs : List Nat) (argv : List Str) (x : Str) :
+    runStrict fenv tbl cs argv ≠ .raise x :=
+  c04_no_traceback_partial fenv tbl (tableOf_noRaiseTbl cfg dest fs tbl h) cs argv x
 end SpVerif.C04
